@@ -390,7 +390,7 @@ def update (dag : Dag) (s : St) (src dst : Nat) (doUnpin : Bool) (ctx : Ctx) : S
   else if ctx = .mid then (s, .cancelled)                -- DiffEnumerate
   else if !diffEnum dag s.present (dag.n + 1) src dst then (s, .notfound)
   else match RMap.find s.store.recs (fromVals.headD 0) with
-    | none => (s, .other)                                 -- loadPin failed
+    | none => (s, .notfound)                              -- loadPin: datastore key not found
     | some pp =>
       let s := addPin s dst .recursive pp.name
       let s := if doUnpin then (removePinsForCid s src (some .recursive)).1 else s
